@@ -12,6 +12,7 @@ import (
 	"os/exec"
 	"strconv"
 	"strings"
+	"syscall"
 	"time"
 )
 
@@ -44,12 +45,18 @@ type Solver struct {
 	in        *bufio.Writer
 	inRaw     io.WriteCloser
 	out       *bufio.Reader
+	lines     chan string
 	defined   map[int32]bool
 	ndefs     int
 	stack     []*Term
 	Stats     SolverStats
 	log       io.Writer // optional transcript
 	tt        *TermTable
+	hung      bool
+	effTO     int
+	bytesAtStart int64
+	curTO     int // timeout currently set in the solver process
+	nextTO    int // timeout to use for the next Check (0 = default)
 }
 
 func NewSolver(kind string, timeoutMs int, tt *TermTable) *Solver {
@@ -80,6 +87,7 @@ func (s *Solver) start() {
 		panic(err)
 	}
 	cmd.Stderr = cmd.Stdout
+	cmd.SysProcAttr = &syscall.SysProcAttr{Pdeathsig: syscall.SIGKILL}
 	if err := cmd.Start(); err != nil {
 		panic(err)
 	}
@@ -87,6 +95,20 @@ func (s *Solver) start() {
 	s.inRaw = in
 	s.in = bufio.NewWriterSize(in, 1<<16)
 	s.out = bufio.NewReaderSize(out, 1<<16)
+	lines := make(chan string, 1024)
+	s.lines = lines
+	go func(r *bufio.Reader, ch chan string) {
+		for {
+			line, err := r.ReadString('\n')
+			if line != "" {
+				ch <- line
+			}
+			if err != nil {
+				close(ch)
+				return
+			}
+		}
+	}(s.out, lines)
 	if d := os.Getenv("VERIF_SMT_LOG"); d != "" && s.log == nil {
 		f, _ := os.CreateTemp(d, "smt-*.smt2")
 		s.log = f
@@ -94,6 +116,8 @@ func (s *Solver) start() {
 	s.defined = map[int32]bool{}
 	s.ndefs = 0
 	s.stack = nil
+	s.curTO = s.timeoutMs
+	s.bytesAtStart = s.Stats.DefsBytes
 	s.send("(set-option :global-declarations true)")
 	if strings.HasPrefix(s.kind, "z3") {
 		s.send("(set-option :produce-models true)")
@@ -128,11 +152,16 @@ func (s *Solver) send(line string) {
 }
 
 // define makes sure t can be referenced by ref(t)
-func (s *Solver) define(t *Term) {
-	if t.op == OConst || s.defined[t.id] {
-		return
+// letTerm prints t as one SMT-LIB term with nested parallel lets (one let per DAG height level), declaring the
+// variables it meets. No define-fun macros are used: z3 4.8.12 expands nested macros at parse time without
+// sharing, which is exponential on deep DAGs (a checksum over a dozen symbolic bytes never finished parsing).
+func (s *Solver) letTerm(t *Term) string {
+	if t.op == OConst {
+		return constStr(t)
 	}
-	// iterative post-order to avoid deep recursion
+	// collect nodes, compute heights
+	height := map[int32]int{}
+	var order []*Term
 	type fr struct {
 		t *Term
 		i int
@@ -140,28 +169,70 @@ func (s *Solver) define(t *Term) {
 	st := []fr{{t, 0}}
 	for len(st) > 0 {
 		f := &st[len(st)-1]
-		if f.t.op == OConst || s.defined[f.t.id] {
+		if _, done := height[f.t.id]; done || f.t.op == OConst {
 			st = st[:len(st)-1]
 			continue
 		}
 		if f.i < int(f.t.na) {
 			c := f.t.args[f.i]
 			f.i++
-			if c.op != OConst && !s.defined[c.id] {
+			if _, done := height[c.id]; !done && c.op != OConst {
 				st = append(st, fr{c, 0})
 			}
 			continue
 		}
-		tt := f.t
-		if tt.op == OVar {
-			s.send(fmt.Sprintf("(declare-const %s %s)", tt.name, sortStr(tt)))
-		} else {
-			s.send(fmt.Sprintf("(define-fun t%d () %s %s)", tt.id, sortStr(tt), body(tt)))
+		h := 0
+		for k := 0; k < int(f.t.na); k++ {
+			if a := f.t.args[k]; a.op != OConst {
+				if ha := height[a.id] + 1; ha > h {
+					h = ha
+				}
+			}
 		}
-		s.defined[tt.id] = true
-		s.ndefs++
+		if f.t.op == OVar {
+			h = 0
+			if !s.defined[f.t.id] {
+				s.send(fmt.Sprintf("(declare-const %s %s)", f.t.name, sortStr(f.t)))
+				s.defined[f.t.id] = true
+				s.ndefs++
+			}
+		}
+		height[f.t.id] = h
+		order = append(order, f.t)
 		st = st[:len(st)-1]
 	}
+	if t.op == OVar {
+		return t.name
+	}
+	maxH := height[t.id]
+	levels := make([][]*Term, maxH+1)
+	for _, n := range order {
+		if n.op == OVar {
+			continue
+		}
+		levels[height[n.id]] = append(levels[height[n.id]], n)
+	}
+	var sb strings.Builder
+	depth := 0
+	for h := 1; h <= maxH; h++ {
+		if len(levels[h]) == 0 {
+			continue
+		}
+		if h == maxH && len(levels[h]) == 1 && levels[h][0] == t {
+			break
+		}
+		sb.WriteString("(let (")
+		for _, n := range levels[h] {
+			fmt.Fprintf(&sb, "(t%d %s)", n.id, body(n))
+		}
+		sb.WriteString(") ")
+		depth++
+	}
+	sb.WriteString(body(t))
+	for i := 0; i < depth; i++ {
+		sb.WriteByte(')')
+	}
+	return sb.String()
 }
 
 func (s *Solver) sync(pc []*Term) {
@@ -174,20 +245,41 @@ func (s *Solver) sync(pc []*Term) {
 		s.stack = s.stack[:k]
 	}
 	for ; k < len(pc); k++ {
-		s.define(pc[k])
+		txt := s.letTerm(pc[k])
 		s.send("(push 1)")
-		s.send(fmt.Sprintf("(assert %s)", ref(pc[k])))
+		s.send("(assert " + txt + ")")
 		s.stack = append(s.stack, pc[k])
+	}
+}
+
+// readLine waits for one output line; ok=false on EOF or when the watchdog deadline passes
+func (s *Solver) readLine(deadline time.Time) (string, bool) {
+	d := time.Until(deadline)
+	if d < 0 {
+		d = 0
+	}
+	select {
+	case line, ok := <-s.lines:
+		return line, ok
+	case <-time.After(d):
+		return "", false
 	}
 }
 
 // readResult reads lines until a check-sat answer
 func (s *Solver) readResult() (Result, bool) {
 	sawErr := false
+	// watchdog: some z3 builds ignore :timeout inside preprocessing
+	to := s.effTO
+	if to == 0 {
+		to = s.timeoutMs
+	}
+	deadline := time.Now().Add(time.Duration(to)*time.Millisecond*3/2 + 3*time.Second)
 	for {
-		line, err := s.out.ReadString('\n')
-		if err != nil {
-			return Unknown, true
+		line, ok := s.readLine(deadline)
+		if !ok {
+			s.hung = true
+			return Unknown, false
 		}
 		line = strings.TrimSpace(line)
 		switch {
@@ -218,9 +310,11 @@ func (s *Solver) readSexp() string {
 	var sb strings.Builder
 	depth := 0
 	started := false
+	deadline := time.Now().Add(30 * time.Second)
 	for {
-		line, err := s.out.ReadString('\n')
-		if err != nil {
+		line, ok := s.readLine(deadline)
+		if !ok {
+			s.hung = true
 			return sb.String()
 		}
 		sb.WriteString(line)
@@ -243,16 +337,26 @@ func (s *Solver) Check(pc []*Term, extra *Term, wantModel bool) (Result, Model) 
 	if s.cmd == nil {
 		s.start()
 	}
-	if s.ndefs > 400000 {
+	if s.Stats.DefsBytes-s.bytesAtStart > 400<<20 {
 		s.restart()
 	}
 	t0 := time.Now()
 	s.sync(pc)
 	if extra != nil {
-		s.define(extra)
+		txt := s.letTerm(extra)
 		s.send("(push 1)")
-		s.send(fmt.Sprintf("(assert %s)", ref(extra)))
+		s.send("(assert " + txt + ")")
 	}
+	to := s.timeoutMs
+	if s.nextTO > 0 {
+		to = s.nextTO
+	}
+	s.nextTO = 0
+	if strings.HasPrefix(s.kind, "z3") && to != s.curTO {
+		s.send(fmt.Sprintf("(set-option :timeout %d)", to))
+		s.curTO = to
+	}
+	s.effTO = to
 	s.send("(check-sat)")
 	s.in.Flush()
 	res, sawErr := s.readResult()
@@ -278,7 +382,13 @@ func (s *Solver) Check(pc []*Term, extra *Term, wantModel bool) (Result, Model) 
 			parseModel(txt, byName, model)
 		}
 	}
-	if extra != nil {
+	if s.hung {
+		s.hung = false
+		res = Unknown
+		model = nil
+		s.restart()
+		s.Stats.Restarts--
+	} else if extra != nil {
 		s.send("(pop 1)")
 	}
 	d := time.Since(t0)
